@@ -13,7 +13,7 @@ from core import REPO, SCRATCH, VERIF, run
 HELPERS = {
     # helper -> (values popped, values pushed)
     "monadic_ref": (1, 1), "monadic_env": (1, 1), "monadic_ref_env": (1, 1), "monadic_mut": (1, 1), "monadic_mut_env": (1, 1),
-    "dyadic_rr": (2, 1), "dyadic_oo": (2, 1), "dyadic_ro": (2, 1), "dyadic_rr_env": (2, 1), "dyadic_oo_env": (2, 1), "dyadic_ro_env": (2, 1),
+    "dyadic_rr": (2, 1), "dyadic_rr_env": (2, 1), "dyadic_oo_env": (2, 1), "dyadic_ro_env": (2, 1),
 }
 
 
